@@ -125,6 +125,11 @@ structure Faults where
   writeF : Option Nat := none
   removeF : Option Nat := none
   gzF : Option Nat := none
+  /-- the copy into the encoder fails: the `.gz` has been created and is left behind — empty but
+      well-formed, the dropped encoder finishes it —, the original stays -/
+  gzCopyF : Option Nat := none
+  /-- the final `finish()` of the encoder fails after the copy: a complete `.gz` next to the original -/
+  gzFinishF : Option Nat := none
 deriving DecidableEq, Repr
 
 def noFaults : Faults := {}
@@ -224,6 +229,8 @@ def cleanupLoop (now : Nat) (hasSuffix : Bool) (k m : Nat) (fl : Faults) :
     else if i ≥ k then
       if n.gz || !hasSuffix then cleanupLoop now hasSuffix k m fl rest (i + 1) d rmCtr gzCtr
       else if hit fl.gzF gzCtr then (d, true)
+      else if hit fl.gzCopyF gzCtr then (d.set { n with gz := true } ⟨[], now⟩, true)
+      else if hit fl.gzFinishF gzCtr then (d.set { n with gz := true } ⟨f.data, now⟩, true)
       else
         let gzName : FName := { n with gz := true }
         if hit fl.removeF rmCtr then ((d.set gzName ⟨f.data, now⟩), true)
